@@ -44,6 +44,8 @@ struct Node {
 	/// (fewest, most) chunks left
 	waiting: Option<(f64, f64)>,
 	pending_wait: Option<f64>,
+	/// pause() issued while the track is waiting to resume: the scheduled resume is cancelled, the track stays paused
+	pending_cancel_wait: bool,
 }
 
 fn amp(bit: u32) -> f32 {
@@ -139,7 +141,7 @@ fn tree_case(r: &mut Rng, stats: &mut Stats) -> Result<(), String> {
 			None => sc.rig.mgr.add_sub_track(b).ok(),
 		};
 		let ok = h.is_some();
-		sc.nodes.push(Node { handle: h, parent, persist, sounds: vec![], paused: false, picked_up: false, removed: !ok, pending_pause: None, deferred: false, unloaded: vec![], waiting: None, pending_wait: None });
+		sc.nodes.push(Node { handle: h, parent, persist, sounds: vec![], paused: false, picked_up: false, removed: !ok, pending_pause: None, deferred: false, unloaded: vec![], waiting: None, pending_wait: None, pending_cancel_wait: false });
 		sc.log.push(format!("track {} parent {:?} persist {}", i, parent, persist));
 	}
 	for i in 0..n_tracks {
@@ -200,7 +202,16 @@ fn tree_case(r: &mut Rng, stats: &mut Stats) -> Result<(), String> {
 						sc.log.push(format!("cb{}: stop bit{} on track {}", cb, s.1, i));
 					}
 				}
-				_ => {}
+				_ => {
+					// pause a track that is waiting to resume (established by an earlier callback): the wait is cancelled
+					if sc.nodes[i].handle.is_some() && sc.nodes[i].pending_pause.is_none() && sc.nodes[i].pending_wait.is_none() && sc.nodes[i].waiting.is_some() && !sc.nodes[i].pending_cancel_wait {
+						if let Some(h) = sc.nodes[i].handle.as_mut() {
+							h.pause(inst());
+						}
+						sc.nodes[i].pending_cancel_wait = true;
+						sc.log.push(format!("cb{}: pause track {} while it waits to resume", cb, i));
+					}
+				}
 			}
 		}
 		// ---- model: what takes hold at this callback's start
@@ -257,6 +268,21 @@ fn tree_case(r: &mut Rng, stats: &mut Stats) -> Result<(), String> {
 		}
 		let mut waiting_now = vec![false; n_tracks];
 		for i in 0..n_tracks {
+			if sc.nodes[i].pending_cancel_wait {
+				sc.nodes[i].pending_cancel_wait = false;
+				if !sc.nodes[i].removed {
+					sc.nodes[i].waiting = None;
+					sc.nodes[i].paused = true;
+					// like any fade, the (zero-length) fade-out only runs once the ancestors are processed again
+					let ancestors_unpaused = match sc.nodes[i].parent {
+						Some(p) => sc.chain_ok(p, &|x| !x.paused),
+						None => true,
+					};
+					if !ancestors_unpaused {
+						sc.nodes[i].deferred = true;
+					}
+				}
+			}
 			if let Some(w) = sc.nodes[i].pending_wait.take() {
 				if !sc.nodes[i].removed {
 					sc.nodes[i].waiting = Some((w, w));
